@@ -9,4 +9,6 @@ Definition mk_spawn := Spawn.
 Definition mk_clonesync := CloneSync.
 Definition mk_import := Import.
 Definition mk_callfn := CallFn.
-Extraction "osprop_model.ml" eff mk_top mk_hostcall mk_hostclone mk_spawn mk_clonesync mk_import mk_callfn.
+Definition mk_nest := Nest.
+Definition mk_layers := ctx_of_layers.
+Extraction "osprop_model.ml" eff mk_top mk_hostcall mk_hostclone mk_spawn mk_clonesync mk_import mk_callfn mk_nest mk_layers.
